@@ -35,9 +35,10 @@ def vec(k, n):
     return KINDS[k][n]
 
 
-def canonical_ok(k1, n, k2, m, order) -> bool:
+def canonical_ok(k1, n, k2, m, order, _reset=True) -> bool:
     """identical class object <=> equal parameters, in either order of first use"""
-    reset_caches()
+    if _reset:
+        reset_caches()
     k1, k2, n, m, order = conc(k1, 0, 2), conc(k2, 0, 2), conc(n, 1, 8), conc(m, 1, 8), conc(order, 0, 1)
     if order == 0:
         a = vec(k1, n)
@@ -60,8 +61,9 @@ def canonical_ok(k1, n, k2, m, order) -> bool:
     return True
 
 
-def qualified_ok(q1, k1, n, q2, k2, m, order) -> bool:
-    reset_caches()
+def qualified_ok(q1, k1, n, q2, k2, m, order, _reset=True) -> bool:
+    if _reset:
+        reset_caches()
     q1, q2 = conc(q1, 0, 2), conc(q2, 0, 2)
     k1, k2, n, m, order = conc(k1, 0, 2), conc(k2, 0, 2), conc(n, 1, 6), conc(m, 1, 6), conc(order, 0, 1)
     if order == 0:
@@ -128,13 +130,35 @@ def port_ok(k, n, d, order) -> bool:
     return True
 
 
-def array_ok(k1, n, c1, k2, m, c2) -> bool:
-    reset_caches()
+def array_ok(k1, n, c1, k2, m, c2, _reset=True) -> bool:
+    if _reset:
+        reset_caches()
     k1, k2, n, m, c1, c2 = conc(k1, 0, 2), conc(k2, 0, 2), conc(n, 1, 4), conc(m, 1, 4), conc(c1, 1, 4), conc(c2, 1, 4)
     A = Array[vec(k1, n), c1]
     B = Array[vec(k2, m), c2]
     same = k1 == k2 and n == m and c1 == c2
     return (A is B) == same and A is Array[vec(k1, n), c1] and (issubclass(A, B) == same)
+
+
+def respec_ok(fam, k1, n, k2, m, order) -> bool:
+    """Indexing an already specialised class -- Unsigned[n][m], Signal[T][T2], Array[T, c][T2, c2] -- as the FIRST request
+    of the new parameters is either refused or yields the canonical class: afterwards the lattice is the documented one."""
+    reset_caches()
+    fam, k1, k2, n, m, order = conc(fam, 0, 2), conc(k1, 0, 2), conc(k2, 0, 2), conc(n, 1, 4), conc(m, 1, 4), conc(order, 0, 1)
+    try:
+        if fam == 0:
+            vec(k1, n)[m]
+        elif fam == 1:
+            QUALS[order][vec(k1, n)][vec(k2, m)]
+        else:
+            Array[vec(k1, n), 2][vec(k2, m), 3]
+    except AssertionError:
+        pass
+    if fam == 0:
+        return canonical_ok(k1, m, k1, n, order, _reset=False) and canonical_ok(k1, m, k2, n, 1 - order, _reset=False)
+    if fam == 1:
+        return qualified_ok(order, k2, m, order, k1, n, 0, _reset=False) and qualified_ok(order, k2, m, 2 - order, k1, n, 1, _reset=False)
+    return array_ok(k2, m, 3, k1, n, 2, _reset=False) and array_ok(k2, m, 3, k2, m, 3, _reset=False)
 
 
 def _bits(v, w):
@@ -173,6 +197,45 @@ def views_ok(W, k, val, wv, wsel, hi, lo, newbits, q) -> bool:
             return False
     if r._root is not obj._root or not isinstance(r, Q):
         return False
+    return True
+
+
+def _oob_obj(W, k, q):
+    x = vec(k, W)(_bits(0, W)) if k == 0 else vec(k, W)(BitVector[W](_bits(0, W)))
+    return x if q == 2 else [Signal, Variable][q][vec(k, W)](x)
+
+
+_REFUSED = (AssertionError, IndexError, ValueError, TypeError, RuntimeError)
+
+
+def oob_slice_ok(W, k, hi, lo, q) -> bool:
+    """a slice that does not lie inside the object is refused (never silently clipped or wrapped to bits that exist);
+    a slice that does lie inside has exactly the requested width"""
+    k, q = conc(k, 0, 2), conc(q, 0, 2)
+    hi, lo = conc(hi, -3, W + 2), conc(lo, -3, W + 2)
+    obj = _oob_obj(W, k, q)
+    try:
+        got = TQ.TypeQualifier.decay(obj[hi:lo]).width
+    except _REFUSED:
+        got = None
+    if 0 <= lo <= hi <= W - 1:
+        return got == hi - lo + 1
+    return got is None
+
+
+def oob_index_ok(W, k, i, q) -> bool:
+    """indices 0..W-1 are accepted, indices >= W or < -W refused (negative indices inside -W..-1 are not judged)"""
+    k, q, i = conc(k, 0, 2), conc(q, 0, 2), conc(i, -W - 2, W + 2)
+    obj = _oob_obj(W, k, q)
+    try:
+        obj[i]
+        accepted = True
+    except _REFUSED:
+        accepted = False
+    if i >= W or i < -W:
+        return not accepted
+    if 0 <= i < W:
+        return accepted
     return True
 
 
